@@ -429,16 +429,16 @@ func C17ShutdownWhileTableBusy() {
 }
 
 // C17ReentrantCloser: the close callback of a handler calls back into the end point (a session that, when
-// it ends, removes a handler depending on it, or registers a replacement): whichever way the handler
+// it ends, removes a handler depending on it, registers a replacement, or hangs up): whichever way the handler
 // ends, the call that ended it returns, both callbacks run exactly once, both queues get closed, and the
 // table keeps working afterwards (when the end point itself is still open).
 func C17ReentrantCloser() {
 	s := newZZStream()
 	e := NewEndPoint(s)
 	qSession, qDep, qNew := make(chan *Message, 2), make(chan *Message, 2), make(chan *Message, 2)
-	var sessionClosed, depClosed, newClosed int32
+	var sessionClosed, depClosed, newClosed, closeReturned int32
 	how := sym.Choose("how-the-handler-ends", 4)
-	action := sym.Choose("what-the-close-callback-does", 3)
+	action := sym.Choose("what-the-close-callback-does", 4)
 	depID := e.MakeHandler(func(hdr *Header) (bool, bool) { return hdr.Service == 7, true }, qDep, func(err error) { atomic.AddInt32(&depClosed, 1) })
 	var removeDepErr error
 	id := e.MakeHandler(func(hdr *Header) (bool, bool) { return hdr.Service == 1, how != 3 }, qSession, func(err error) {
@@ -448,6 +448,10 @@ func C17ReentrantCloser() {
 			removeDepErr = e.RemoveHandler(depID)
 		case 1:
 			e.MakeHandler(func(hdr *Header) (bool, bool) { return hdr.Service == 9, true }, qNew, func(err error) { atomic.AddInt32(&newClosed, 1) })
+		case 3:
+			// the session is over: hang up
+			e.Close()
+			atomic.AddInt32(&closeReturned, 1)
 		}
 	})
 	switch how {
@@ -462,7 +466,10 @@ func C17ReentrantCloser() {
 	}
 	sym.Quiesce()
 	sym.Assert(atomic.LoadInt32(&sessionClosed) == 1, "reentrant/close-callback-once")
-	if how == 0 || how == 3 {
+	if action == 3 {
+		sym.Assert(atomic.LoadInt32(&closeReturned) == 1, "reentrant/close-called-from-the-callback-never-returned")
+	}
+	if (how == 0 || how == 3) && action != 3 {
 		// the end point is still open
 		if action == 0 {
 			sym.Assert(removeDepErr == nil, "reentrant/dependent-removed")
